@@ -57,6 +57,9 @@ func qualifier(p *types.Package) string {
 // typeKey is a canonical name for a type under the current substitution.
 func (e *TEnv) typeKey(t types.Type) string {
 	t = e.resolve(t)
+	if el, ok := isSetType(t); ok {
+		return "set[" + e.typeKey(el) + "]"
+	}
 	if el, ok := isSeqType(t); ok {
 		return "seq[" + e.typeKey(el) + "]"
 	}
@@ -244,7 +247,29 @@ func seqType(elem types.Type, key string) *types.Named {
 	return n
 }
 
+func setType(elem types.Type, key string) *types.Named {
+	k := "set:" + key
+	if n, ok := seqTypes[k]; ok {
+		return n
+	}
+	tn := types.NewTypeName(0, nil, "set["+key+"]", nil)
+	n := types.NewNamed(tn, types.NewSlice(elem), nil)
+	seqTypes[k] = n
+	return n
+}
+
+func isSetType(t types.Type) (types.Type, bool) {
+	n, ok := t.(*types.Named)
+	if !ok || n.Obj().Pkg() != nil || !strings.HasPrefix(n.Obj().Name(), "set[") {
+		return nil, false
+	}
+	return n.Underlying().(*types.Slice).Elem(), true
+}
+
 func isSeqType(t types.Type) (types.Type, bool) {
+	if el, ok := isSetType(t); ok {
+		return el, true
+	}
 	n, ok := t.(*types.Named)
 	if !ok || n.Obj().Pkg() != nil || !strings.HasPrefix(n.Obj().Name(), "seq[") {
 		return nil, false
@@ -254,6 +279,9 @@ func isSeqType(t types.Type) (types.Type, bool) {
 
 func (e *TEnv) leaves(t types.Type) []Leaf {
 	t = e.resolve(t)
+	if el, ok := isSetType(t); ok {
+		return []Leaf{{Path: "", Sort: ArraySort(e.scalarSort(el), SBool), Type: t}}
+	}
 	if el, ok := isSeqType(t); ok {
 		return []Leaf{{Path: "", Sort: ArraySort(e.IntS(), e.scalarSort(el)), Type: t}}
 	}
